@@ -341,6 +341,131 @@ def _readonly_property(ctx):
                     ctx.witness('readonly', 'state changed by rejected mutators on a read-only archive', case)
 
 
+def _damage_property(ctx):
+    """one changed stored byte (preload, directory tail, numbered archive, single-file tail) makes verify() of exactly
+    that file and verify_all() false after reopening; restoring the byte makes them true again."""
+    from srctools.vpk import VPK
+    import os
+    rng = ctx.rng
+    for single in (False, True):
+        for limit in (0, 16, 1024, None):
+            for idx in (None, 1):
+                with U.ImplWorld(single) as w:
+                    v = VPK(w.path, mode='w', dir_data_limit=limit)
+                    datas = {('a', 'n', 'e'): U.gen_bytes(rng.randrange(1000), 40), ('', 'big', 'bin'): U.gen_bytes(rng.randrange(1000), 3000),
+                             ('b/c', 'huge', ''): U.gen_bytes(rng.randrange(1000), 66000)}
+                    for t, d in datas.items():
+                        v.add_file(t, d, arch_index=idx)
+                    v.write_dirfile()
+                    r = VPK(w.path, mode='r')
+                    if not r.verify_all():
+                        ctx.witness('verify', 'verify_all() false on an undamaged archive', {'single': single, 'limit': limit, 'idx': idx})
+                        continue
+                    dirsize = os.path.getsize(w.path)
+                    for t in datas:
+                        info = r[t]
+                        spots = []
+                        if info.start_data:
+                            raw = open(w.path, 'rb').read()
+                            if raw.count(info.start_data) == 1:
+                                spots.append(('preload', w.path, raw.find(info.start_data) + rng.randrange(len(info.start_data))))
+                        if info.arch_len:
+                            k = rng.randrange(info.arch_len)
+                            if info.arch_index is None:
+                                spots.append(('single-file tail' if single else 'directory tail', w.path, dirsize - len(r.footer_data) + info.offset + k))
+                            else:
+                                spots.append(('numbered archive', os.path.join(w.dir, 'pak01_%03d.vpk' % info.arch_index), info.offset + k))
+                        for where, path, pos in spots:
+                            ctx.count('damage: one byte changed in ' + where)
+                            with open(path, 'r+b') as fh:
+                                fh.seek(pos); old = fh.read(1); fh.seek(pos); fh.write(bytes([old[0] ^ rng.choice([1, 0x55, 0x80, 0xff])]))
+                            try:
+                                d = VPK(w.path, mode='r')
+                                bad = [x for x in datas if not d[x].verify()]
+                                if d.verify_all() is not False or bad != [t]:
+                                    ctx.witness('damage', f'byte {pos} of the {where} of {t} changed: verify_all() = {d.verify_all()}, files failing verify(): {bad}',
+                                                {'single': single, 'limit': limit, 'idx': idx, 'where': where})
+                            except Exception as e:
+                                ctx.witness('damage', f'byte {pos} of the {where} of {t} changed: reopening raised {type(e).__name__}: {e}',
+                                            {'single': single, 'limit': limit, 'idx': idx, 'where': where})
+                            finally:
+                                with open(path, 'r+b') as fh:
+                                    fh.seek(pos); fh.write(old)
+                    if not VPK(w.path, mode='r').verify_all():
+                        ctx.witness('damage', 'verify_all() stays false after the byte was restored', {'single': single, 'limit': limit, 'idx': idx})
+
+
+FOLDER_FILES = ['n.txt', 'file', 'a.b.c', 'x y.e', 'N.TXT', '.hidden', 'n']
+FOLDER_DIRS = ['', 'sub', 'sub/deep', 'A', 'x y']
+
+
+def _folder_property(ctx):
+    """add_folder(folder, prefix) then write_dirfile, reopen, extract_all reproduces the folder byte for byte;
+    add_file/new_file with root= store the path relative to root."""
+    from srctools.vpk import VPK
+    import os, tempfile, shutil
+    rng = ctx.rng
+    for trial in range(ctx.budget(6, 40)):
+        single = rng.random() < 0.4
+        prefix = rng.choice(['', 'pre', 'pre/fix'])
+        base = tempfile.mkdtemp(prefix='c13f_')
+        try:
+            src, dest = os.path.join(base, 'src'), os.path.join(base, 'dest')
+            os.makedirs(src)
+            exp = {}
+            for d in rng.sample(FOLDER_DIRS, rng.randrange(1, len(FOLDER_DIRS) + 1)):
+                os.makedirs(os.path.join(src, d), exist_ok=True)
+                for fn in rng.sample(FOLDER_FILES, rng.randrange(0, 4)):
+                    data = U.gen_bytes(rng.randrange(1000), rng.choice([0, 5, 1024, 1025, 70000]))
+                    with open(os.path.join(src, d, fn), 'wb') as fh:
+                        fh.write(data)
+                    exp['/'.join(x for x in (prefix, d, fn) if x)] = data
+            path = os.path.join(base, 'p.vpk' if single else 'p_dir.vpk')
+            case = {'folder_test': True, 'single': single, 'prefix': prefix, 'files': sorted(exp)}
+            ctx.count('folder: add_folder + extract_all histories')
+            v = VPK(path, mode='w', dir_data_limit=rng.choice(U.LIMITS))
+            v.add_folder(src, prefix)
+            v.write_dirfile()
+            r = VPK(path, mode='r')
+            got = sorted(r.filenames())
+            if got != sorted(exp):
+                ctx.witness('folder', f'add_folder(prefix={prefix!r}) lists {got}, the folder holds {sorted(exp)}', case)
+                continue
+            if any(r[k].read() != exp[k] for k in exp) or not r.verify_all():
+                ctx.witness('folder', 'files added by add_folder do not read back / verify', case)
+                continue
+            r.extract_all(dest)
+            out = {}
+            for dp, _, fns in os.walk(dest):
+                for fn in fns:
+                    with open(os.path.join(dp, fn), 'rb') as fh:
+                        out[os.path.relpath(os.path.join(dp, fn), dest).replace(os.sep, '/')] = fh.read()
+            if out != exp:
+                ctx.witness('folder', f'extract_all wrote {sorted(out)} (or different bytes), expected {sorted(exp)}', case)
+            # root=
+            ctx.count('folder: root= histories')
+            v2 = VPK(os.path.join(base, 'q_dir.vpk'), mode='w')
+            v2.add_file(os.path.join(src, 'sub', 'r.txt'), b'root-data', root=src)
+            v2.add_file((os.path.join(src, 'sub', 'deep'), 's.txt'), b'root-data2', root=src)
+            v2.new_file((src, 't', 'e'), root=src)
+            want = ['sub/deep/s.txt', 'sub/r.txt', 't.e']
+            if sorted(v2.filenames()) != want or v2['sub/r.txt'].read() != b'root-data' or ('sub/deep', 's', 'txt') not in v2:
+                ctx.witness('folder', f'root=: files stored as {sorted(v2.filenames())}, expected {want}', {'root_test': True})
+        finally:
+            shutil.rmtree(base, ignore_errors=True)
+
+
+def _special_known(w):
+    """open findings whose witness is not an operation history"""
+    from srctools.vpk import VPK
+    if w.get('kind') == 'name-roundtrip':
+        with U.ImplWorld(False) as iw:
+            v = VPK(iw.path, mode='w')
+            v.add_file(w['name'], b'data')
+            return list(v.filenames()) != [w['name']]
+    return None
+
+
 def search(ctx):
     if not ctx.extra.get('_ran'):
         # drivers unavailable: run the histories on the implementation alone
@@ -371,11 +496,17 @@ def search(ctx):
         ctx.witness(key, (f2[0][1] if f2 else what) + f' [history: {json.dumps(_summary(small))[:600]}]', small)
     _names_property(ctx)
     _readonly_property(ctx)
+    _damage_property(ctx)
+    _folder_property(ctx)
 
 
 def replay(ctx, payload):
     inp = payload.get('input')
     if not isinstance(inp, dict) or 'ops' not in inp:
+        if isinstance(inp, dict) and ('folder_test' in inp or 'root_test' in inp):
+            n0 = len(ctx.witnesses); _folder_property(ctx); return len(ctx.witnesses) == n0
+        if isinstance(inp, dict) and 'where' in inp:
+            n0 = len(ctx.witnesses); _damage_property(ctx); return len(ctx.witnesses) == n0
         if isinstance(inp, dict) and 'triple' in inp:
             n0 = len(ctx.witnesses); _names_property(ctx); return len(ctx.witnesses) == n0
         print('replay file names a broken obligation/correspondence, no history to replay:',
@@ -390,6 +521,8 @@ def replay(ctx, payload):
 
 def replay_known(ctx, finding):
     w = finding.get('witness')
+    if isinstance(w, dict) and 'kind' in w:
+        return _special_known(w)
     if not isinstance(w, dict) or 'ops' not in w:
         return None
     return bool(_fails_of(w))
